@@ -2,6 +2,7 @@
    event inside the claim, feeding the lines the server shows the client through the state
    handlers turns the tracker from the network's view before the event into the view after it. *)
 From Verif Require Import TrackerSpec TrackerSpecFacts StateHandlers Net NetObs NetProofs NetHandlers NetSim NetModes.
+From Verif Require NetDec.
 From Verif Require GoBytes LineLib Line LineSend LineSendFacts.
 Open Scope Z_scope.
 
@@ -16,7 +17,8 @@ Record wf_net (nt : net) : Prop := {
   wf_mem : forall c n, onN nt c n -> is_Some (n_chans nt !! c) /\ is_Some (n_users nt !! n);
   wf_users : forall n ui, n_users nt !! n = Some ui ->
                nick_ok n = true /\ LineSend.name_ok (ui_user ui) = true /\ LineSend.name_ok (ui_host ui) = true
-               /\ text_ok (ui_real ui) = true;
+               /\ text_ok (ui_real ui) = true
+               /\ LineSend.middle_ok (ui_user ui) = true /\ LineSend.middle_ok (ui_host ui) = true;
   wf_chans : forall c a, n_chans nt !! c = Some a ->
                chan_ok c = true /\ text_ok (ca_topic a) = true
                /\ (cm_key (ca_modes a) = [] \/ LineSend.middle_ok (cm_key (ca_modes a)) = true)
@@ -115,7 +117,8 @@ Proof.
   intros W Hme Hv. rewrite forallb_forall in Hv. apply Forall_forall. intros m Hm.
   apply elem_of_list_In in Hm. specialize (Hv m Hm).
   destruct m as [add x|add k|add l|add x n|add x mask]; simpl in *; try done.
-  - destruct add; [|done]. apply andb_prop in Hv. destruct Hv as [_ Hv]. by apply Z.eqb_eq.
+  - destruct add; [|done]. apply andb_prop in Hv. destruct Hv as [H1 H2]. apply Z.ltb_lt in H1. apply Z.leb_le in H2.
+    apply NetDec.atoi_dec_of_Z. unfold max_limit in H2. lia.
   - apply andb_prop in Hv. destruct Hv as [H1 H2]. split; [done|]. apply onb_spec in H2.
     apply (wf_d2 nt W c n). done.
   - apply andb_prop in Hv. tauto.
